@@ -1,11 +1,9 @@
 (* Sound6.v — layer 3, stage 6: the iterator operators.
-   `it $]` (collect), `it $init f` (reduce), `it ? T` (type filter), `it $+`, `it $*`.
+   `it $]` (collect), `it $init f` (reduce), `it ? T` (type filter), `it \ p` (partition).
    An iterator is a function value () -> (bool, E): a call yields (true, x) with x : E or
    an end marker (false, _).  The loops of the interpreter ([pull_def], [reduce_def]) call it
    through [call_def]; Sound4.call_sound types every such call.
-   `$+` / `$*` run a prelude closure chosen by the run-time tag of the iterator:
-   [prelude_ok pre W] says the store typing records the honest signatures of those closures
-   (() -> (bool,int)) -> int, ...; the policy's iterator gate provides it ([gate_ok]). *)
+   `$+` / `$*` are planted as calls of the reducer closures by the checker (T_Call / T_Match). *)
 From SSL.Model Require Import Base Ty Float Value Ops Seq Syntax Rt Recreate Exec Check.
 From SSL.Lemmas Require Import TyLemmas ValueLemmas SeqLemmas ExecLemmas SoundLemmas CellLemmas
   SoundDefs SoundVals SoundTyping Sound1 Sound2 Sound3 Sound4 Sound5 SoundRec1.
@@ -217,130 +215,6 @@ Proof.
   - apply (matches_trans _ _ _ Mr2). apply concat_upper_l. exact WR.
   - apply (ctx_store _ _ _ _ _ HC3).
   - apply (gv_sub W3 initv T0); [exact Hinitv|]. apply concat_upper_r. exact W0t.
-Qed.
-
-(* ---- it $+ , it $* : a prelude closure chosen by the run-time tag among the iterator
-        types the static type allows ---- *)
-Lemma prelude_call n (IHl : sound_line_at n) W K st sc pid IT R Rs v :
-  store_ok W st -> sig_fun W pid [IT] R -> wf_ty (TFun [IT] R) = true ->
-  vgood W v -> matches (as_type v) IT = true -> matches R Rs = true ->
-  concl W K Rs sc (call_def (E n) pid [v] st sc).
-Proof.
-  intros HS Hsig Wf Hg Mt MR.
-  apply (call_sound powf pre n IHl W K Rs st sc pid [IT] R [v]); try assumption.
-  - split; assumption.
-  - constructor; [apply gv_by_tag; assumption|constructor].
-Qed.
-
-(* a run-time tag below the join of the allowed iterator types is below one of them *)
-Ltac join_compute H :=
-  match type of H with
-  | matches _ ?j = _ => let j' := eval vm_compute in j in change j with j' in H
-  end.
-
-Lemma adm_member3 t T :
-  nm t = true -> matches t (adm_join T [IT_INT; IT_FLOAT; IT_STRING]) = true ->
-  (matches IT_INT T && matches t IT_INT) || (matches IT_FLOAT T && matches t IT_FLOAT) ||
-  (matches IT_STRING T && matches t IT_STRING) = true.
-Proof.
-  intros N H. unfold adm_join in H. cbn [filter] in H.
-  destruct (matches IT_INT T), (matches IT_FLOAT T), (matches IT_STRING T);
-    join_compute H;
-    try (rewrite matches_multi_r_nm in H by exact N; cbn [existsb] in H; rewrite ?orb_false_r in H);
-    try (rewrite matches_nm_never in H by exact N; discriminate H);
-    cbn [andb orb]; unfold IT_INT, IT_FLOAT, IT_STRING, it_of in *; revert H;
-    repeat match goal with |- context [matches t ?c] => destruct (matches t c) end;
-    cbn; intros H; try reflexivity; discriminate H.
-Qed.
-
-Lemma adm_member2 t T :
-  nm t = true -> matches t (adm_join T [IT_INT; IT_FLOAT]) = true ->
-  (matches IT_INT T && matches t IT_INT) || (matches IT_FLOAT T && matches t IT_FLOAT) = true.
-Proof.
-  intros N H. unfold adm_join in H. cbn [filter] in H.
-  destruct (matches IT_INT T), (matches IT_FLOAT T);
-    join_compute H;
-    try (rewrite matches_multi_r_nm in H by exact N; cbn [existsb] in H; rewrite ?orb_false_r in H);
-    try (rewrite matches_nm_never in H by exact N; discriminate H);
-    cbn [andb orb]; unfold IT_INT, IT_FLOAT, IT_STRING, it_of in *; revert H;
-    repeat match goal with |- context [matches t ?c] => destruct (matches t c) end;
-    cbn; intros H; try reflexivity; discriminate H.
-Qed.
-
-(* the dispatch of sum::exec on booleans: a_c = the static type allows kind c,
-   d_c = the run-time tag is of kind c *)
-Lemma sum_dispatch_spec (a1 a2 a3 d1 d2 d3 : bool) :
-  (a1 && d1) || (a2 && d2) || (a3 && d3) = true ->
-  if d1 && (negb (a1 || a2 || a3) || a1) then d1 = true /\ a1 = true
-  else if d2 && (negb (a1 || a2 || a3) || a2) then d2 = true /\ a2 = true
-  else d3 = true /\ a3 = true.
-Proof. destruct a1, a2, a3, d1, d2, d3; cbn; intros H; try discriminate H; auto. Qed.
-
-Lemma prod_dispatch_spec (a1 a2 d1 d2 : bool) :
-  (a1 && d1) || (a2 && d2) = true ->
-  if d1 && (a1 || negb a2) then d1 = true /\ a1 = true else d2 = true /\ a2 = true.
-Proof. destruct a1, a2, d1, d2; cbn; intros H; try discriminate H; auto. Qed.
-
-Lemma sty_typed W0 G K x T : typed W0 G K x T -> Exec.sty x = T.
-Proof. intros H. unfold Exec.sty. rewrite (typed_rt _ _ _ _ _ H). reflexivity. Qed.
-
-Lemma case_sum n (IH : sound_at n) (IHl : sound_line_at n)
-    (Hgate : forall W0 G i, iter_gate W0 G i -> prelude_ok pre W0) W0 G K x T W st sc :
-  iter_gate W0 G (IUn USum x) -> typed W0 G K x T -> sum_ok T (ielem T) = true ->
-  ctx_ok W0 W st sc G ->
-  concl W K (ielem T) sc (E (S n) st sc (IUn USum x)).
-Proof.
-  intros Hga Hx Hok HC. rewrite exec_S_IUn, (sty_typed _ _ _ _ _ Hx).
-  pose proof (Hgate _ _ _ Hga) as HP0.
-  apply (with_val_sound powf pre n IH W0 G K x T); [exact Hx|exact HC|].
-  intros W1 st1 v HE1 HC1 [Hv Hg]. cbn [un_dispatch]. cbv zeta.
-  pose proof (prelude_ok_mono pre W0 W1 (ctx_ext _ _ _ _ _ HC1) HP0) as [P1 [P2 [P3 _]]].
-  pose proof (ctx_store _ _ _ _ _ HC1) as HS1.
-  unfold sum_ok in Hok. apply andb_true_iff in Hok. destruct Hok as [Hj Hk].
-  unfold kinds_ok in Hk. cbn [forallb fst snd] in Hk.
-  apply andb_true_iff in Hk. destruct Hk as [K1 Hk]. apply andb_true_iff in Hk.
-  destruct Hk as [K2 Hk]. rewrite andb_true_r in Hk.
-  pose proof (adm_member3 (as_type v) T (as_type_nm v)
-                (matches_trans _ _ _ (has_type_tag _ _ Hv) Hj)) as Hm.
-  change (TFun [] (TTup [TBool; TInt])) with IT_INT.
-  change (TFun [] (TTup [TBool; TFloat])) with IT_FLOAT.
-  change (TFun [] (TTup [TBool; TString])) with IT_STRING.
-  pose proof (sum_dispatch_spec _ _ _ _ _ _ Hm) as D.
-  destruct (matches (as_type v) IT_INT && (negb (matches IT_INT T || matches IT_FLOAT T || matches IT_STRING T) || matches IT_INT T)).
-  - destruct D as [D A]. rewrite A in K1. cbn [implb] in K1.
-    apply (prelude_call n IHl W1 K st1 sc _ IT_INT TInt); try assumption. reflexivity.
-  - destruct (matches (as_type v) IT_FLOAT && (negb (matches IT_INT T || matches IT_FLOAT T || matches IT_STRING T) || matches IT_FLOAT T)).
-    + destruct D as [D A]. rewrite A in K2. cbn [implb] in K2.
-      apply (prelude_call n IHl W1 K st1 sc _ IT_FLOAT TFloat); try assumption. reflexivity.
-    + destruct D as [D A]. rewrite A in Hk. cbn [implb] in Hk.
-      apply (prelude_call n IHl W1 K st1 sc _ IT_STRING TString); try assumption. reflexivity.
-Qed.
-
-Lemma case_product n (IH : sound_at n) (IHl : sound_line_at n)
-    (Hgate : forall W0 G i, iter_gate W0 G i -> prelude_ok pre W0) W0 G K x T W st sc :
-  iter_gate W0 G (IUn UProduct x) -> typed W0 G K x T -> prod_ok T (ielem T) = true ->
-  ctx_ok W0 W st sc G ->
-  concl W K (ielem T) sc (E (S n) st sc (IUn UProduct x)).
-Proof.
-  intros Hga Hx Hok HC. rewrite exec_S_IUn, (sty_typed _ _ _ _ _ Hx).
-  pose proof (Hgate _ _ _ Hga) as HP0.
-  apply (with_val_sound powf pre n IH W0 G K x T); [exact Hx|exact HC|].
-  intros W1 st1 v HE1 HC1 [Hv Hg]. cbn [un_dispatch]. cbv zeta.
-  pose proof (prelude_ok_mono pre W0 W1 (ctx_ext _ _ _ _ _ HC1) HP0) as [_ [_ [_ [P4 P5]]]].
-  pose proof (ctx_store _ _ _ _ _ HC1) as HS1.
-  unfold prod_ok in Hok. apply andb_true_iff in Hok. destruct Hok as [Hj Hk].
-  unfold kinds_ok in Hk. cbn [forallb fst snd] in Hk.
-  apply andb_true_iff in Hk. destruct Hk as [K1 K2]. rewrite andb_true_r in K2.
-  pose proof (adm_member2 (as_type v) T (as_type_nm v)
-                (matches_trans _ _ _ (has_type_tag _ _ Hv) Hj)) as Hm.
-  change (TFun [] (TTup [TBool; TInt])) with IT_INT.
-  change (TFun [] (TTup [TBool; TFloat])) with IT_FLOAT.
-  pose proof (prod_dispatch_spec _ _ _ _ Hm) as D.
-  destruct (matches (as_type v) IT_INT && (matches IT_INT T || negb (matches IT_FLOAT T))).
-  - destruct D as [D A]. rewrite A in K1. cbn [implb] in K1.
-    apply (prelude_call n IHl W1 K st1 sc _ IT_INT TInt); try assumption. reflexivity.
-  - destruct D as [D A]. rewrite A in K2. cbn [implb] in K2.
-    apply (prelude_call n IHl W1 K st1 sc _ IT_FLOAT TFloat); try assumption. reflexivity.
 Qed.
 
 (* ---- it ? T : a new closure running the template of type_filter.rs ---- *)
